@@ -15,8 +15,15 @@ OPEN (false of the code as it is; see known_findings.json):
 * `resolution_order` without the guard `goodT` – F-C04-4 (bindings inside a `<%block>` become locals of the
   enclosing scope), F-C04-6 (the defs of a `<%call>` believe the call body's names declared);
 * `mlocals_current` without `mlGuard` – F-C04-5 (`<% %>` blocks of anonymous blocks / call bodies update `__M_locals`);
-* `reserved_rejected` for module-level `<%! %>` names and `<%namespace name=…>` – the rest of F-C04-1 (arguments and
-  def / block names are checked since the repair 347affa; `render_context(**kwargs)` since 9729b87).
+* "a def called by name from anywhere in the body function nest gets `context._locals(__M_locals)`" – F-C04-7: proved
+  for the stubs of `render_body` itself only (`body_stubs_pass_locals`); below it the flag follows the `_Identifiers`
+  on top of the identifier stack (modelled in `Scopes.lean`, compared on every run, not claimed);
+* `reserved_rejected` for module-level `<%! %>` names and `<%namespace name=…>` names – F-C04-1b;
+* "`loop` is reserved whenever the loop context is enabled" – F-C04-2: `Cfg.reservedLoop` (from `Template(enable_loop=…)`)
+  and `Cfg.enableLoop` (also set by `<%page enable_loop>`) are separate inputs of the model; no theorem equates them;
+* F12b, F12c, F12d (comprehension variables, default-argument / class-body reads, match captures and `async def`
+  names in `pyparser.FindIdentifiers`): the per-construct (declared, undeclared) sets are *inputs* of this model, so
+  these are outside the Lean statements; they are found by the oracle only.
 -/
 namespace MakoModel.C04
 open MakoModel.Names MakoModel.Names.Context
@@ -333,7 +340,8 @@ theorem render_entries_reject (reserved keys kw : List Name) (e : Entry) (fresh 
 
 /-- `<%include args=…>` / `Namespace.include_file(uri, **kw)`: `runtime._include_file` intersects its keyword
 arguments with the included template's reserved names (regenerated fact, repaired by 4d698dc) – a reserved keyword
-argument is rejected, whatever the state of the context -/
+argument is rejected.  (An included template always runs on a copy of a context that is already bound to a template,
+so there is no context-state case distinction here: `renderEntry` ignores `fresh` and `keys` for this entry.) -/
 theorem include_args_reject (reserved keys kw : List Name) (fresh : Bool) (x : Name) (hr : x ∈ reserved) (hk : x ∈ kw) :
     Generated.Names.includeChecksKwargs = true ∧
     ∃ l, renderEntry reserved .includeFile fresh keys kw = .nameConflict l ∧ l ≠ [] := by
